@@ -9,7 +9,7 @@ injected failure at EVERY write-statement index.
 from .. import evocases, evorig, sigs
 
 
-def check_trace(tr, outcome, apps=('vapp', 'wapp', 'xapp')):
+def check_trace(tr, outcome, apps=('vapp', 'wapp', 'xapp'), ignore_tables=()):
     """the property, on one interleaved trace; returns a list of problems"""
     problems = []
     ev = [e for e in tr.events if e[0] in ('signal', 'sql', 'fault')]
@@ -63,6 +63,8 @@ def check_trace(tr, outcome, apps=('vapp', 'wapp', 'xapp')):
             elif name in ('evolved',) and open_pair is not None:
                 problems.append('evolved while %s is open' % open_pair[0])
         elif e[0] == 'sql':
+            if any(('"%s"' % t) in e[1] for t in ignore_tables):
+                continue        # tables of the purged app, whatever they are called: purging has no signals
             touched = [a for a in apps if ('"%s_' % a) in e[1]]
             if touched and open_pair is None and not e[1].startswith(('CREATE INDEX', 'CREATE UNIQUE INDEX')) and 'django_' not in e[1]:
                 # deferred SQL of new models (indexes, FK constraints) legitimately runs after the pairs
@@ -138,10 +140,15 @@ def run(ctx):
         # every other case: an app that is not installed any more is purged in the same run (purging has no
         # signals of its own, so its statements are outside the pairs by design)
         purge = (tries % 2 == 0)
+        purged_tables = []
         if purge:
             from .c15 import add_stale
-            if add_stale(random.Random(seed), seed, case['spec0']) is None:
+            stale = add_stale(random.Random(seed), seed, case['spec0'])
+            if stale is None:
                 purge = False
+            else:
+                from .c15 import owned_tables
+                purged_tables = owned_tables(stale)
         ctx.count('upgrade_with_purge:%s' % purge)
         evocases.save_db('v0')
         evocases.install_v1(case)
@@ -153,7 +160,7 @@ def run(ctx):
         done += 1
         n = len(tr.write_statements())
         rep0 = {'spec0': case['spec0'], 'mutations': case['muts'], 'seed': seed}
-        for p in check_trace(tr, 'ok') + saved_problems(tr):
+        for p in check_trace(tr, 'ok', ignore_tables=purged_tables) + saved_problems(tr):
             ctx.fail(None, 'upgrade%s: %s' % (' with purge' if purge else '', p), dict(rep0, purge=purge, signals=tr.signals()))
         ctx.case({'mutations': [sigs.model_mutation(m) for m in case['muts']], 'fault': None,
                   'signals': [s[0] for s in tr.signals()]}, nontrivial=True, sample_cap=3)
@@ -168,7 +175,7 @@ def run(ctx):
             ctx.case({'mutations': [sigs.model_mutation(m) for m in case['muts']], 'fault': k, 'signals': sigs_k},
                      nontrivial=any(s.startswith(('applying', 'creating')) for s in sigs_k), sample_cap=6)
             ctx.count('fault_runs')
-            for p in check_trace(trk, rk[0]) + saved_problems(trk):
+            for p in check_trace(trk, rk[0], ignore_tables=purged_tables) + saved_problems(trk):
                 ctx.fail(None, 'fault at write #%d of %d: %s' % (k, n, p), dict(rep0, k=k, purge=purge, signals=trk.signals(),
                                                                                failed_sql=trk.failed_sql))
             # no applied/created after the failing statement
